@@ -318,6 +318,8 @@ def run_case(case, keep=False):
         v["returned"] = returned
         v["disk"] = disk_view(folder)
         v["threads"] = sum(1 for t in threading.enumerate() if t is not threading.main_thread() and t.is_alive())
+        if agent is not None:
+            v["nlearned"] = len(agent.learned)   # learn calls made by the time the operation returned
         if case.get("want_plot") and (folder / "scheduler_pickled.pickle").exists():
             v["plot_table"] = plot_table(folder)
         obs["views"].append(v)
